@@ -114,6 +114,7 @@ int main(int argc, char **argv) {
       relBySec[tgt][Rl.getOffset()] = n + "+" + std::to_string(add) + ":" + tn.str().str() + ":" + std::to_string(ssec);
     }
   }
+  std::string ibufs; raw_string_ostream ibuf(ibufs);
   for (const SectionRef &S : Obj->sections()) {
     if (!S.isText()) continue;
     unsigned si = S.getIndex();
@@ -124,14 +125,14 @@ int main(int argc, char **argv) {
     while (off < Bytes.size()) {
       MCInst I; uint64_t sz;
       auto st = Dis->getInstruction(I, sz, Bytes.slice(off), off, nulls());
-      if (st != MCDisassembler::Success) { out << "B\t" << si << "\t" << off << "\n"; off += 1; continue; }
+      if (st != MCDisassembler::Success) { ibuf << "B\t" << si << "\t" << off << "\n"; off += 1; continue; }
       const MCInstrDesc &D = MII->get(I.getOpcode());
       std::string s; raw_string_ostream os(s);
       IP->printInst(&I, off, "", *STI, os);
       for (auto &c : os.str()) if (c == '\t') c = ' ';
-      out << "I\t" << si << "\t" << off << "\t" << sz << "\t" << MII->getName(I.getOpcode()) << "\t" << s << "\t"
+      ibuf << "I\t" << si << "\t" << off << "\t" << sz << "\t" << MII->getName(I.getOpcode()) << "\t" << s << "\t"
           << D.getNumDefs() << "\t";
-      out << (D.mayLoad() ? "L" : "") << (D.mayStore() ? "S" : "") << (D.isCall() ? "C" : "") << (D.isReturn() ? "R" : "")
+      ibuf << (D.mayLoad() ? "L" : "") << (D.mayStore() ? "S" : "") << (D.isCall() ? "C" : "") << (D.isReturn() ? "R" : "")
           << (D.isBranch() ? "B" : "") << (D.isIndirectBranch() ? "I" : "") << (D.isConditionalBranch() ? "J" : "")
           << (D.isUnconditionalBranch() ? "U" : "") << (D.hasUnmodeledSideEffects() ? "E" : "") << "\t";
       int memstart = -1;
@@ -139,25 +140,36 @@ int main(int argc, char **argv) {
         auto &O = I.getOperand(i);
         int ot = i < D.getNumOperands() ? D.OpInfo[i].OperandType : -1;
         if (ot == MCOI::OPERAND_MEMORY && memstart < 0) memstart = i;
-        if (O.isReg()) out << "r:" << MRI->getName(O.getReg());
-        else if (O.isImm()) out << "i:" << O.getImm();
-        else out << "?";
+        if (O.isReg()) ibuf << "r:" << MRI->getName(O.getReg());
+        else if (O.isImm()) ibuf << "i:" << O.getImm();
+        else ibuf << "?";
         int tied = i < D.getNumOperands() ? D.getOperandConstraint(i, MCOI::TIED_TO) : -1;
-        out << "/" << ot << "/" << tied << ",";
+        ibuf << "/" << ot << "/" << tied << ",";
       }
-      out << "\t";
-      if (const MCPhysReg *p = D.getImplicitDefs()) for (; *p; ++p) out << MRI->getName(*p) << ",";
-      out << "\t";
-      if (const MCPhysReg *p = D.getImplicitUses()) for (; *p; ++p) out << MRI->getName(*p) << ",";
-      out << "\t";
+      ibuf << "\t";
+      if (const MCPhysReg *p = D.getImplicitDefs()) for (; *p; ++p) ibuf << MRI->getName(*p) << ",";
+      ibuf << "\t";
+      if (const MCPhysReg *p = D.getImplicitUses()) for (; *p; ++p) ibuf << MRI->getName(*p) << ",";
+      ibuf << "\t";
       for (uint64_t k = off; k < off + sz; k++) {
         auto it = rel.find(k);
-        if (it != rel.end()) out << (k - off) << "@" << it->second << ";";
+        if (it != rel.end()) ibuf << (k - off) << "@" << it->second << ";";
       }
-      out << "\t" << memstart << "\n";
+      ibuf << "\t" << memstart << "\n";
+      {
+        const char *kind = D.isCall() ? "call" : D.isBranch() ? "jmp" : (MII->getName(I.getOpcode()).startswith("LEA") ? "lea" : (D.mayStore() ? (D.mayLoad() ? "rmw" : "store") : (D.mayLoad() ? "load" : "other")));
+        bool anyrel = false;
+        for (uint64_t k = off; k < off + sz; k++) {
+          auto it = rel.find(k);
+          if (it != rel.end()) { anyrel = true; out << "E\t" << si << "\t" << off << "\t" << sz << "\t" << kind << "\t" << (k - off) << "\t" << it->second << "\t" << MII->getName(I.getOpcode()) << "\n"; }
+        }
+        if (!anyrel && D.isCall() && I.getNumOperands() > 0 && I.getOperand(0).isImm() && !D.isIndirectBranch())
+          out << "T\t" << si << "\t" << off << "\t" << (int64_t)(off + sz + I.getOperand(0).getImm()) << "\n";
+      }
       off += sz;
     }
   }
+  out << "#INS\n" << ibuf.str();
   // line table
   std::unique_ptr<DWARFContext> DC = DWARFContext::create(*Obj);
   if (DC) {
